@@ -12,11 +12,11 @@ def showCall : Call → String
 def parseCfg (route preserve input force : String) : Option IoCfg :=
   let r : Option Route := match route with
     | "inplace" => some .inPlace | "out" => some .out | "dir" => some .dir | "stdout" => some .stdout
-    | "pretend" => some .pretend | _ => none
+    | "pretend" => some .pretend | "pretenddir" => some .pretend | _ => none
   let i : Option InputKind := match input with
     | "improvable" => some .improvable | "notimprovable" => some .notImprovable | "invalid" => some .invalid | _ => none
   match r, i with
-  | some r, some i => some ⟨r, preserve == "1", i, force == "1"⟩
+  | some r, some i => some ⟨r, preserve == "1", i, force == "1", route == "pretenddir"⟩
   | _, _ => none
 
 def handleIo (args : List String) : Option String :=
